@@ -362,6 +362,20 @@ func (e *Env) afterSuccess(post *World, leg *Leg, execAddr []byte, legs *[]*Leg)
 }
 
 func (e *Env) updateGhost(post *World, leg *Leg) {
+	// the freeze / pause controls the system contract had accepted
+	if leg.Input != nil && bytes.Equal(leg.Input.CallerAddr, vmcommon.ESDTSCAddress) && len(leg.Input.Arguments) >= 1 {
+		tok := string(leg.Input.Arguments[0])
+		switch leg.Func {
+		case vmcommon.BuiltInFunctionESDTFreeze:
+			post.ghostSetFlag("frozen", leg.Input.RecipientAddr, tok, true)
+		case vmcommon.BuiltInFunctionESDTUnFreeze, vmcommon.BuiltInFunctionESDTWipe:
+			post.ghostSetFlag("frozen", leg.Input.RecipientAddr, tok, false)
+		case vmcommon.BuiltInFunctionESDTPause:
+			post.ghostSetFlag("paused", []byte{byte(leg.Shard)}, tok, true)
+		case vmcommon.BuiltInFunctionESDTUnPause:
+			post.ghostSetFlag("paused", []byte{byte(leg.Shard)}, tok, false)
+		}
+	}
 	// the system contract's own role records (A7 a): what it granted and revoked
 	if leg.Input != nil && bytes.Equal(leg.Input.CallerAddr, vmcommon.ESDTSCAddress) && len(leg.Input.Arguments) >= 2 {
 		tok := string(leg.Input.Arguments[0])
